@@ -255,6 +255,15 @@ func Assign(left, right value.Value) error {
 		default:
 			return errors.WithStack(fmt.Errorf("invalid assignment for IP type, got %s", right.Type()))
 		}
+	case value.AclType:
+		lv := value.Unwrap[*value.Acl](left)
+		switch right.Type() {
+		case value.AclType: // ACL = ACL
+			rv := value.Unwrap[*value.Acl](right)
+			lv.Value = rv.Value
+		default:
+			return errors.WithStack(fmt.Errorf("invalid assignment for ACL type, got %s", right.Type()))
+		}
 	case value.RegexType:
 		lv := value.Unwrap[*value.Regex](left)
 		switch right.Type() {
